@@ -1158,7 +1158,7 @@ func (th *Thread) equal(a, b Value) *Term {
 	case Str:
 		bs := b.(Str)
 		if a.Opaque != nil || bs.Opaque != nil {
-			m.unsupported("comparison of opaque strings")
+			return th.ropeEq(a, bs)
 		}
 		if a.Len() != bs.Len() {
 			return m.ts.Bool(false)
